@@ -20,6 +20,7 @@ import (
 
 	"verifharness/internal/chainkit"
 	"verifharness/internal/faultkv"
+	"verifharness/internal/refimpl"
 	"verifharness/internal/vh"
 )
 
@@ -31,6 +32,7 @@ type fixturesInput struct {
 	Repo      string              `json:"repo"`
 	Legacy    map[string][]string `json:"legacy"`
 	Committed map[string][]string `json:"committed"`
+	Classes   *classTable         `json:"classes"`
 }
 
 type fixture struct {
@@ -176,6 +178,12 @@ func TestBlockVerifyFixtures(t *testing.T) {
 	if err != nil {
 		t.Fatal(err)
 	}
+	restore, err := refimpl.UseIndependent()
+	if err != nil {
+		t.Fatal(err)
+	}
+	defer restore()
+	refTxs, refBlocks, moves := 0, 0, 0
 	if len(fx) < 40 {
 		t.Fatalf("only %d fixture blocks found under %s", len(fx), in.Repo)
 	}
@@ -218,7 +226,31 @@ func TestBlockVerifyFixtures(t *testing.T) {
 			_, err = bc.SanityCheckNewHeight(o.B, o.U, o.C)
 			return err
 		}
-		input := vh.J{"repo": in.Repo, "legacy": in.Legacy, "committed": in.Committed}
+		input := vh.J{"repo": in.Repo, "legacy": in.Legacy, "committed": in.Committed, "classes": in.Classes}
+		// self-test of the REFERENCE (refimpl) against the network's own hashes - machinery, never a verdict:
+		// every transaction hash of the formats whose transaction hashes are recomputable, every block hash from 0.13.2 on
+		if modern || class == "0.11-0.13.1" {
+			cid := refimpl.ShortString(f.network.L2ChainID)
+			for i, tx := range f.o.B.Transactions {
+				ref, err := refimpl.TxHash(tx, &cid)
+				if err == refimpl.ErrNoHashRule {
+					continue
+				}
+				if err != nil || !ref.Equal(tx.Hash()) {
+					t.Fatalf("the reference transaction hash is wrong: real %s block %d transaction %d (%s): network %s, reference %s %v",
+						f.net, f.n, i, txKind(tx), tx.Hash(), &ref, err)
+				}
+				refTxs++
+			}
+		}
+		if modern {
+			parts, err := refimpl.BlockHash(f.o.B, f.o.U.StateDiff)
+			if err != nil || !parts.Hash.Equal(f.o.B.Hash) {
+				t.Fatalf("the reference block hash is wrong: real %s block %d (version %s): network %s, reference %+v %v",
+					f.net, f.n, f.o.B.ProtocolVersion, f.o.B.Hash, parts, err)
+			}
+			refBlocks++
+		}
 		offers++
 		if err := verify(f.o.clone()); err != nil {
 			out.Diverge(vh.Divergence{Key: fmt.Sprintf("block-verify:rejected-valid-fixture:%s:%d", f.net, f.n),
@@ -256,6 +288,45 @@ func TestBlockVerifyFixtures(t *testing.T) {
 				continue
 			}
 			rejected++
+		}
+		// presence / value classes on real blocks: the first carrier of every class field moved to every
+		// other class the representation can carry (a real two-bound v3 transaction given an (0,0)
+		// l1_data_gas entry, an empty paymaster_data made [0] ...), all hashes kept
+		if modern && in.Classes != nil {
+			for _, cf := range in.Classes.ClassIn[class] {
+				acc, _ := carriers(cf, f.o.B.Transactions, f.o.B.Receipts, f.o.B.Header)
+				if len(acc) == 0 {
+					continue
+				}
+				from := acc[0].get()
+				if !contains(in.Classes.ClassOf[cf], from) {
+					continue
+				}
+				for _, to := range in.Classes.ClassOf[cf] {
+					if to == from || (contains(in.Classes.ProtoSame[class], cf) && to != "nonzero" && from != "nonzero") {
+						continue
+					}
+					o := f.o.clone()
+					a2, _ := carriers(cf, o.B.Transactions, o.B.Receipts, o.B.Header)
+					a2[0].set(to, nil)
+					move := cf + ":" + from + ">" + to
+					offers++
+					moves++
+					err := verify(o)
+					switch {
+					case err != nil && strings.HasPrefix(err.Error(), "PANIC"):
+						out.Diverge(vh.Divergence{Key: in.Classes.crashKey(cf, from, to, ":fixture-"+class),
+							What:  fmt.Sprintf("real %s block %d with %s makes SanityCheckNewHeight panic: %v", f.net, f.n, move, err),
+							Input: input, Expected: "rejected", Observed: err.Error()})
+					case err == nil:
+						out.Diverge(vh.Divergence{Key: fmt.Sprintf("block-verify:accepted-tamper:%s:fixture-%s", move, class),
+							What:  fmt.Sprintf("real %s block %d (format %s) with %s (class moved, all hashes kept) passes SanityCheckNewHeight", f.net, f.n, class, move),
+							Input: input, Expected: "rejected", Observed: "accepted"})
+					default:
+						rejected++
+					}
+				}
+			}
 		}
 	}
 	// chains from genesis: the full pipeline incl. Store, on both state backends
@@ -338,6 +409,9 @@ func TestBlockVerifyFixtures(t *testing.T) {
 	out.Stats["fixture_tampers_without_target"] = noTarget
 	out.Stats["fixture_chain_blocks_stored"] = stored
 	out.Stats["fixture_blocks_per_format"] = perClass
+	out.Stats["fixture_class_moves"] = moves
+	out.Stats["reference_selftest_tx_hashes"] = refTxs
+	out.Stats["reference_selftest_block_hashes"] = refBlocks
 	out.Sample(vh.J{"fixtures_per_format": perClass, "tampers_rejected": rejected, "chain_blocks_stored": stored})
 }
 
